@@ -136,7 +136,52 @@ def run(ctx):
             cases.append({"parser": parser.split("-")[0], "own": own, "w": [w.year, w.month, w.day, w.hour, w.minute, w.second, 0],
                           "offA": offA, "offT": offT, "offTz": offTz, "offTo": offTo, "hasTo": has_to, "rata": rata,
                           "s": s, "kw": kw, "settings": st, "api": "parse", "probe": False, "zones": [A[0], B[0] if has_to else None]})
-    results = core.run_cases(ctx, "harness.lib", "call_parse", cases)
+    results = core.run_cases(ctx, "harness.lib", "call_parse", cases, env=({"TZ": cases[0]["tzenv"]} if rep and cases[0].get("tzenv") else None))
+    # ---- TIMEZONE='local': the process-local zone comes from the TZ environment of the worker processes
+    if not rep:
+        for tzenv in (["Asia/Kolkata", "America/New_York", "Pacific/Kiritimati"] if ctx.quick() else
+                      ["Asia/Kolkata", "America/New_York", "Pacific/Kiritimati", "Europe/Berlin", "Australia/Lord_Howe", "America/St_Johns", "UTC"]):
+            Lz = pytz.timezone(tzenv)
+            lc = []
+            for _ in range(150 if ctx.quick() else 1500):
+                B = pick_zone()
+                if B[1] is None:
+                    continue
+                parser = rng.choice(["absolute", "relative", "timestamp", "custom"])
+                rata = rng.choice(RATAS)
+                has_to = rng.random() < 0.8
+                y = rng.randint(2002, 2037) if parser == "timestamp" else rng.randint(1950, 2037)
+                w = datetime.datetime(y, rng.randint(1, 12), rng.randint(1, 28), rng.randint(0, 23), rng.randint(0, 59), rng.randint(0, 59))
+                offA = local_ok(Lz, w)
+                if offA is None:
+                    continue
+                inst = w - datetime.timedelta(seconds=offA)
+                offTo = off_at(B[1], inst)
+                st = {"TIMEZONE": "local"}
+                if has_to:
+                    st["TO_TIMEZONE"] = B[0]
+                if rata != "default":
+                    st["RETURN_AS_TIMEZONE_AWARE"] = rata == "true"
+                kw = {"languages": ["en"]}
+                ws = w.strftime("%Y-%m-%d %H:%M:%S")
+                if parser == "custom":
+                    s_, kw["date_formats"] = ws, ["%Y-%m-%d %H:%M:%S"]
+                elif parser == "relative":
+                    s_ = "now"
+                    st["RELATIVE_BASE"] = [w.year, w.month, w.day, w.hour, w.minute, w.second, 0]
+                elif parser == "timestamp":
+                    n = int((inst - datetime.datetime(1970, 1, 1)).total_seconds())
+                    if not (10 ** 9 <= n < 10 ** 10):
+                        continue
+                    s_ = str(n)
+                else:
+                    s_ = ws
+                lc.append({"parser": parser, "own": False, "w": [w.year, w.month, w.day, w.hour, w.minute, w.second, 0], "offA": offA,
+                           "offT": offTo if has_to else offA, "offTz": offA, "offTo": offTo, "hasTo": has_to, "rata": rata, "s": s_, "kw": kw,
+                           "settings": st, "api": "parse", "probe": False, "zones": ["local(TZ=%s)" % tzenv, B[0] if has_to else None], "tzenv": tzenv})
+            lr = core.run_cases(ctx, "harness.lib", "call_parse", lc, nproc=4, env={"TZ": tzenv})
+            cases += lc
+            results += lr
     records = []
     for i, (c, r) in enumerate(zip(cases, results)):
         records.append({"tid": i, "parser": c["parser"], "own": c["own"], "w": c["w"], "offA": c["offA"], "offT": c["offT"], "offTz": c["offTz"],
@@ -147,7 +192,7 @@ def run(ctx):
     for t in tuples["REJECT"]:
         _, tid, kind, verdict, exp = t[:5]
         c, r = cases[tid], results[tid]
-        d = {"call": "dateparser.parse(%r, %s, settings=%r)" % (c["s"], ", ".join("%s=%r" % kv for kv in c["kw"].items()), c["settings"]), "parser": c["parser"]}
+        d = {"call": "dateparser.parse(%r, %s, settings=%r)" % (c["s"], ", ".join("%s=%r" % kv for kv in c["kw"].items()), c["settings"]), "parser": c["parser"], "TZ_env": c.get("tzenv")}
         if kind == "abs":
             ctx.note_drift("Timezone", {"case": d, "model": exp, "observed": [r["out"], r["off"]]})
         else:
@@ -165,4 +210,4 @@ def run(ctx):
     return core.finish(ctx, LEVEL, cov, assumptions=[
         "zone offsets at the relevant instant come from pytz (the statement's reference); local times in a DST gap or fold of TIMEZONE are excluded",
         "library abbreviations that are also IANA names (CET, EST, ...) are not used as settings values: the two resolution orders of the library give them different meanings",
-        "TIMEZONE='local' / the TZ environment is not varied in this check"])
+        "TIMEZONE='local': worker processes run with TZ set to several zones; strings with their own zone are not combined with TIMEZONE='local' (the code keeps the string's zone there, the statement does not settle it)"])
